@@ -27,10 +27,10 @@ P
   b2=$(cargo build --offline --features $FEAT 2>&1 | tail -1 | grep -c Finished)
   suite=$(cargo nextest run --workspace --no-fail-fast --tool-config-file pb:/w/lib/nextest.toml --profile pb --test-threads 8 --offline 2>&1 | grep -E "Summary" | tail -1 | sed 's/^ *//')
   cp "$d/demo.rs" tests/seed_demo.rs
-  demofeat=""; grep -q 'feature *= *"serde"\|saveload\|uuid_entity\|specs::Component\|derive(Component\|derive(Saveload\|ConvertSaveload' tests/seed_demo.rs && demofeat="--features $FEAT"
-  with=$(cargo test --offline $demofeat --test seed_demo 2>&1 | grep -E "^test result|error(\[|:)" | head -1)
+  demofeat=""; grep -q 'feature *= *"\|FlaggedStorage\|event_emission\|storage-event-control\|saveload\|uuid_entity\|specs::Component\|derive(Component\|derive(Saveload\|ConvertSaveload' tests/seed_demo.rs && demofeat="--features $FEAT"
+  with=$(cargo test --offline $demofeat --test seed_demo 2>&1 | grep -E "^test result|^error" | head -1)
   git apply -R "$d/patch.diff"
-  without=$(cargo test --offline $demofeat --test seed_demo 2>&1 | grep -E "^test result|error(\[|:)" | head -1)
+  without=$(cargo test --offline $demofeat --test seed_demo 2>&1 | grep -E "^test result|^error" | head -1)
   rm -f tests/seed_demo.rs
   res applies=yes build_default=$b1 build_features=$b2 "suite=$suite" "demo_with_patch=$with" "demo_without_patch=$without" "demo_features=$demofeat" "confirmed_by=tools/confirm_seed.sh in a scratch worktree of /repo"
   echo "$d: build=$b1/$b2 suite=[$suite] with=[$with] without=[$without]"
